@@ -56,13 +56,15 @@ func c05Exh(tier string) int {
 
 func (c05) NumCases(tier string, _ int64) int {
 	if tier == "thorough" {
-		return c05Exh(tier) + 400
+		return c05Exh(tier) + 400 + c05Inflight(tier)
 	}
-	return c05Exh(tier) + 32
+	return c05Exh(tier) + 32 + c05Inflight(tier)
 }
+
+func c05Inflight(string) int { return 3 * c05InflightStalls }
 func (c05) Exhaustive(string) bool { return false }
 func (c05) Floors(string) []runner.Floor {
-	return []runner.Floor{{Stat: "faults_fired", Min: 500}, {Stat: "responses_lost", Min: 50}, {Stat: "sdk_faults_fired", Min: 100}}
+	return []runner.Floor{{Stat: "faults_fired", Min: 500}, {Stat: "responses_lost", Min: 50}, {Stat: "sdk_faults_fired", Min: 100}, {Stat: "inflight_cases_with_a_stalled_original", Min: 40}}
 }
 
 // faultHook implements faultdb.Hook.
@@ -481,6 +483,10 @@ func (w *c05Worker) runFault(res *runner.CaseResult, h sim.History, f faultSpec,
 
 func (w *c05Worker) Run(idx int) runner.CaseResult {
 	res := runner.CaseResult{Case: fmt.Sprintf("c05-%d", idx)}
+	if first := (c05{}).NumCases(w.tier, 0) - c05Inflight(w.tier); idx >= first {
+		w.runInflight(&res, idx-first)
+		return res
+	}
 	if idx >= c05Exh(w.tier) {
 		w.runSDK(&res, idx, nil)
 		return res
@@ -548,6 +554,11 @@ func (w *c05Worker) Replay(data json.RawMessage) runner.CaseResult {
 	res := runner.CaseResult{Case: "replay"}
 	var fam struct {
 		Family string `json:"family"`
+		N      int    `json:"n"`
+	}
+	if json.Unmarshal(data, &fam) == nil && fam.Family == "inflight" {
+		w.runInflight(&res, fam.N)
+		return res
 	}
 	if json.Unmarshal(data, &fam) == nil && fam.Family == "sdk" {
 		var sr c05sdkReplay
